@@ -36,12 +36,18 @@ def main(tier, replay=None):
         f_lib = ex.submit(vlib.build_lib, wd)
         f_seq = {k: ex.submit(vlib.tlc, "SeqModel", "Seq_%s_%s.cfg" % (k, "quick" if quick else "thorough"), wd, 3, "3g")
                  for k in ("Array", "List", "Tuple")}
+        f_sab = ex.submit(vlib.tlc, "SortAbort", "SortAbort_untouched.cfg", wd, 2, "2g")
         lib = f_lib.result()
         hmap = vlib.build_harness_wb(lib, ["h_map.c"], os.path.join(wd, "h_map"), ("Tree.c",), chk.notes)
         hseq = vlib.build_harness(lib, ["h_seq.c"], os.path.join(wd, "h_seq"))
         hview = vlib.build_harness(lib, ["h_view.c"], os.path.join(wd, "h_view"))
         r_seq = {k: f.result() for k, f in f_seq.items()}
+        r_sab = f_sab.result()
     chk.lap("built + TLC")
+    # the model side of the open finding F-C12-aborted-sort-reorders: the transcribed quicksort does NOT leave the operand
+    # untouched when a comparison raises (its pinned script shows the same on the code)
+    chk.notes.append("SortAbort/SortAbort_untouched.cfg: Untouched %s by the transcribed quicksort (open finding F-C12-aborted-sort-reorders)"
+                     % ("holds - the model no longer shows the finding" if r_sab.ok else "refuted"))
     if replay:
         first = open(replay).readline().split()
         if any(l.startswith("view ") for l in open(replay)):
